@@ -248,37 +248,78 @@ def gen_init(run):
     """every read position x variable kind, the variable never assigned by the program, initialize_vars=True (strict)."""
     from vf.checks.c10 import POSITIONS
     cases = []
-    kinds = {"n": "V", "s": "V$", "a": "V(1)", "z": "V$(1)"}
-    for pname, applies, tpl in POSITIONS:
+    for nm in ("V", "VX", "V1"):
+      for pname, applies, tpl in POSITIONS:
         if pname in ("assign-target", "read", "input", "line-input", "for"):
             continue
         for kind in applies:
             if pname == "hprint" and kind in "na":
                 continue  # HPRINT of a number: known C14 finding (numeric temporary for ecb_str)
-            ref = kinds[kind]
+            ref = {"n": nm, "s": nm + "$", "a": nm + "(1)", "z": nm + "$(1)"}[kind]
             isstr = kind in "sz"
             fill = {"v": ref, "lit": '"S"' if isstr else "5", "z": "Z$" if isstr else "Z", "bi": f"LEN( {ref} )" if isstr else f"ABS( {ref} )", "cmp": f'{ref} = "X"' if isstr else f"{ref} = 1"}
             stmt = tpl.format(**fill)
             for share in ("none", "dim-array", "implicit-array", "dim-scalar"):
+                if nm != "V" and share not in ("none", "implicit-array"):
+                    continue
                 pre = []
                 post = []
                 sfx = "$" if isstr else ""
                 if share == "dim-array":
-                    pre = [f"DIM V{sfx}(3)"] if kind in "ns" else [f"DIM V{sfx}(3)"]
+                    pre = [f"DIM {nm}{sfx}(3)"]
                     if kind in "ns":
-                        post = [f"V{sfx}(1)=V{sfx}"]
+                        post = [f"{nm}{sfx}(1)={nm}{sfx}"]
                 elif share == "implicit-array":
                     if kind in "az":
                         continue
-                    post = [f"V{sfx}(1)=V{sfx}"]
+                    post = [f"{nm}{sfx}(1)={nm}{sfx}"]
                 elif share == "dim-scalar":
                     if kind in "az" or not isstr:
                         continue
-                    pre = [f"DIM V{sfx}"]
+                    pre = [f"DIM {nm}{sfx}"]
                 body = pre + [stmt] + post + ["END"]
                 text = "".join(f"{10 * (i + 1)} {b}\n" for i, b in enumerate(body)) + '100 PRINT "L"\n'
                 for st in (32, 80):
                     cases.append({"text": text, "opts": {"initialize_vars": True, "default_str_storage": st}, "inputs": [], "features": {"init", "pos:" + pname, "share:" + share}, "origin": f"init {pname} {ref} share={share}"})
+    run.states += len(cases)
+    run.transitions += len(cases)
+    return cases
+
+
+# ------------------------------------------------------------------ (7) strings longer than BASIC09's default 32 bytes
+def gen_long(run):
+    """every string-producing construct carrying 33..80 characters, with the requested string size 80 / 255:
+    nothing the program holds or passes through a temporary may be cut to BASIC09's default 32 bytes."""
+    cases = []
+    L = [33, 40, 64]
+    bodies = []
+    for n in L:
+        bodies += [
+            f'A$="<"+STRING$({n},"*")+">":PRINT LEN(A$);A$',
+            f'PRINT STRING$({n},"*");"|"',
+            f'B$=STRING$({n},"-"):A$=B$+HEX$(255)+"!":PRINT A$;LEN(A$)',
+            f'B$=STRING$({n},"-"):IF B$+HEX$(10)=B$+"A" THEN PRINT "T"',
+            f'DIM N$(2):N$(1)=STRING$({n},"x"):N$(2)=N$(1)+"y":PRINT LEN(N$(2));N$(2)',
+            f'N$(1)=STRING$({n},"x"):PRINT LEN(N$(1))',
+            f'B$=STRING$({n},"ab"):A$=LEFT$(B$,{n - 1})+MID$(B$,2,3):PRINT A$',
+            f'B$=STRING$({n},"q"):A$=RIGHT$(B$+"r",{n}):PRINT A$;LEN(A$)',
+            f'B$=STRING$({n},"q"):PRINT INSTR(1,B$+"Z","Z")',
+            f'B$=STRING$({n},"q"):PRINT LEN(B$+B$)',
+            f'B$=STRING$({n},"q"):A$=B$:C$=A$+"":PRINT LEN(C$)',
+            f'A$=STRING$({n},CHR$(65)):PRINT A$',
+            f'A$=STRING$({n},"AB")+HEX$(4096):PRINT A$',
+        ]
+    for b in bodies:
+        for st in (80, 255):
+            cases.append({"text": "10 " + b + "\n", "opts": {"initialize_vars": True, "default_str_storage": st}, "inputs": [], "features": {"long-string"}, "origin": "long: " + b})
+    for n in L:
+        word = "W" * n
+        for st in (80, 255):
+            o = {"initialize_vars": True, "default_str_storage": st}
+            cases.append({"text": '10 INPUT A$:PRINT LEN(A$);A$\n', "opts": o, "inputs": [word], "features": {"long-string", "input"}, "origin": f"long input {n}"})
+            cases.append({"text": '10 LINE INPUT A$:B$=A$+"!":PRINT LEN(B$)\n', "opts": o, "inputs": [word], "features": {"long-string", "input"}, "origin": f"long line input {n}"})
+            cases.append({"text": f'10 READ A$,B$:PRINT LEN(A$);LEN(B$);A$\n20 DATA {word},"{word}"\n', "opts": o, "inputs": [], "features": {"long-string", "data"}, "origin": f"long data {n}"})
+            cases.append({"text": f'10 DIM N$(1):READ N$(1):PRINT LEN(N$(1))\n20 DATA {word}\n', "opts": o, "inputs": [], "features": {"long-string", "data"}, "origin": f"long data array {n}"})
     run.states += len(cases)
     run.transitions += len(cases)
     return cases
@@ -299,7 +340,7 @@ def run(run):
     run.assumptions = ["Color BASIC model vf/decb/model.py and BASIC09 model vf/b09 (three-valued; UNSPEC -> no verdict)", "ecb_str is a primitive producing Color BASIC's PRINT image of a number",
                        "numeric DATA item read into a string variable and ?REDO inputs are outside the fragment"]
     cases = []
-    for name, g in (("arrays", gen_arrays), ("data", lambda r: gen_data(r, quick)), ("print", gen_print), ("input", gen_input), ("strfn", gen_strfn), ("init", gen_init)):
+    for name, g in (("arrays", gen_arrays), ("data", lambda r: gen_data(r, quick)), ("print", gen_print), ("input", gen_input), ("strfn", gen_strfn), ("init", gen_init), ("long", gen_long)):
         if run.only and name not in run.only:
             continue
         cs = g(run)
